@@ -404,6 +404,25 @@ func checkC07(p *Prog, r *Report) {
 			r.Check(ok, name+": adds its argument to the byte counter", p.Pos(f.Body.Pos()), "AddUint64(&bytes, uint64(n))", "the byte counter is not advanced by the reported n")
 		}
 	}
+
+	// ---- R7.4 counters survive supersession ---------------------------------------------------------
+	r.Rule("R7.4", "When a signalled candidate supersedes a peer-reflexive one, the replacement pair takes over every packet, byte and STUN counter and timestamp from the same counter of the superseded pair: a selected pair's tallies stay equal to what was written and read.", 1)
+	if f := p.Fn("replacePairRemote"); r.Anchor("replacePairRemote", f != nil) {
+		covered, st := p.replacePairCoverage(f)
+		var missing []string
+		for i := 0; st != nil && i < st.NumFields(); i++ {
+			fld := st.Field(i)
+			n := fld.Name()
+			// the statistics: everything numeric or time-valued that the pair updates while in use
+			t := typeStr(fld.Type())
+			isStat := strings.HasPrefix(n, "packets") || strings.HasPrefix(n, "bytes") || strings.HasPrefix(n, "requests") || strings.HasPrefix(n, "responses") ||
+				strings.Contains(t, "atomic.Value") || strings.HasSuffix(n, "RoundTripTime") || strings.HasPrefix(n, "lastPacket")
+			if isStat && !covered[n] {
+				missing = append(missing, n)
+			}
+		}
+		r.Check(len(missing) == 0 && st != nil, "replacePairRemote carries every counter over from the same counter", p.Pos(f.Body.Pos()), "same-field copies", "not carried over from the same field: "+strings.Join(missing, ", ")+" — after the peer-reflexive candidate is replaced the pair's statistics no longer match the traffic")
+	}
 }
 
 // constNameOrVar renders an error sentinel or variable name.
